@@ -226,6 +226,17 @@ def run_case(case):
                                          fn_args=tuple(case_args),
                                          combos=sub_combos, verbosity=0)
 
+        # ------- a neighbour: another study in the same directory whose crop
+        # name differs from ours only by case
+        sib = None
+        if case.get("sibling"):
+            sib_combos = {"a": [7, 8, 9]}
+            with under_test("sibling crop"):
+                sib = x.Crop(fn=crops.record("int", None), name="C6",
+                             parent_dir=main, batchsize=2)
+                sib.sow_combos(sib_combos, verbosity=0)
+            sib_digest = crops.tree_digest(crops.crop_dir(main, "C6"))
+
         # ------- crop path
         bkw = {case["batch"][0]: case["batch"][1]} if case.get("batch") else {}
         models.LOG.clear()
@@ -415,6 +426,20 @@ def run_case(case):
             same_dataframe(farmer_now.full_df, a, "sampler full_df vs file")
         require(not os.path.exists(crops.crop_dir(main, "c6")),
                 "crop-not-cleaned", "crop directory left after reap")
+        if sib is not None:
+            require(os.path.isdir(crops.crop_dir(main, "C6")) and
+                    crops.tree_digest(crops.crop_dir(main, "C6")) ==
+                    sib_digest, "neighbour-crop-touched",
+                    "the crop 'C6' of another study in the same directory "
+                    "was changed by sowing / growing / reaping the crop 'c6'")
+            with under_test("neighbour crop: grow and reap"):
+                sib.grow_missing()
+                got_s = sib.reap()
+            want_s = tuple(models.result_of("int", {"a": a_})
+                           for a_ in (7, 8, 9))
+            require(models.deep_eq(got_s, want_s), "neighbour-crop-touched",
+                    f"the neighbour crop reaps {got_s!r:.200}, expected "
+                    f"{want_s!r:.200}")
         # ---- a second crop at the same location, same process, with a
         # tweaked function: it must be grown with the NEW function
         if case.get("second_round") and farmer_kind == "runner" and \
@@ -469,7 +494,8 @@ def strategy(draw):
                                                "reload"])),
             "init_full": draw(st.sampled_from([False, True])),
             "grow_workers": draw(st.sampled_from([False, False, False,
-                                                  True]))}
+                                                  True])),
+            "sibling": draw(st.sampled_from([False, False, True]))}
     if case["dname"].endswith(".dmp"):
         case["engine"] = "joblib"
     if farmer == "sampler":
